@@ -338,7 +338,7 @@ class Gaussian(Distribution):
                 perturbation = spa.linalg.spsolve(self.sqrtprec, e)
         else:
             if np.allclose(self.sqrtprec, np.tril(self.sqrtprec)): # matrix is triangular
-                perturbation = splinalg.solve_triangular(self.sqrtprec, e)
+                perturbation = splinalg.solve_triangular(self.sqrtprec, e, lower=True)
             else:
                 perturbation = splinalg.solve(self.sqrtprec, e)
 
